@@ -70,8 +70,13 @@ def resolveConfigsEnv (env : Env) (dict : KVs) : KVs := resolveSection "configs"
 
 /-! ## `setNameFromKey` -/
 
-/-- `strconv.ParseBool(fmt.Sprint(x))` without the error -/
-def isTrue (x : Val) : Bool := ["1", "t", "T", "TRUE", "true", "True"].contains (fmtV x)
+/-- `isTrue` (loader/normalize.go): booleans as they are, strings by the YAML 1.1 spellings `toBoolean` converts later,
+    anything else as `strconv.ParseBool(fmt.Sprint(x))` without the error -/
+def isTrue (x : Val) : Bool :=
+  match x with
+  | .bool b => b
+  | .str s => ["true", "y", "yes", "on"].contains (String.ofList (s.toList.map Char.toLower))
+  | x => ["1", "t", "T", "TRUE", "true", "True"].contains (fmtV x)
 
 /-- `resource["name"] == nil` -/
 def nameIsNil (kvs : KVs) : Bool :=
